@@ -67,6 +67,7 @@ class Ctx:
         self.solver = z3.Solver()
         self.solver.set("timeout", FEAS_TIMEOUT_MS)
         self.pc = []
+        self.known = {}
         self.log = log_nil
         self.fresh_n = 0
         self.obj_n = 1000
@@ -118,6 +119,10 @@ class Ctx:
             return
         self.pc.append(t)
         self.solver.add(t)
+        if z3.is_not(t):
+            self.known[t.arg(0).get_id()] = False
+        else:
+            self.known[t.get_id()] = True
 
     def _check(self, *assumptions):
         t0 = time.time()
@@ -143,6 +148,12 @@ class Ctx:
             return True
         if z3.is_false(t):
             return False
+        kn = self.known.get(t.get_id())
+        if kn is None and z3.is_not(t):
+            kn = self.known.get(t.arg(0).get_id())
+            kn = None if kn is None else (not kn)
+        if kn is not None:
+            return kn
         if self.pos < len(self.prefix):
             choice = self.prefix[self.pos]
         else:
@@ -178,8 +189,10 @@ class Ctx:
     def cover(self, label):
         self.covered.add(label)
 
-    def prove(self, name, goal, kind="property", note=""):
-        """Obligation: path condition implies goal."""
+    def prove(self, name, goal, kind="property", note="", only=None):
+        """Obligation: path condition implies goal.  `only`: properties this clause belongs to."""
+        if only is not None and self.unit.split("/")[0] not in only:
+            return True
         if isinstance(goal, bool):
             goal_t = z3.BoolVal(goal)
         else:
@@ -196,7 +209,7 @@ class Ctx:
         ms = (time.time() - t0) * 1000
         self.solver_time += ms / 1000
         pathid = "".join(str(int(x)) for x in self.taken)
-        goal_s = str(z3.simplify(goal_t))
+        goal_s = goal_t.sexpr()[:600] if r == z3.unsat else str(z3.simplify(goal_t))[:3000]
         if r == z3.unsat:
             ob = Obligation(full, "discharged", ms, "z3", goal=goal_s, path=pathid, note=note, smt2=smt2, kind=kind)
         elif r == z3.sat:
@@ -240,10 +253,10 @@ def explore(harness, world, unit_name, max_paths=4000, keep_smt=False, wall_budg
     while work:
         prefix = work.pop()
         npaths += 1
-        if npaths > max_paths:
-            raise Unsupported(f"path budget exceeded ({max_paths}) in {unit_name}")
-        if wall_budget and time.time() - t0 > wall_budget:
-            raise Unsupported(f"wall budget exceeded in {unit_name}")
+        if npaths > max_paths or (wall_budget and time.time() - t0 > wall_budget):
+            why = "path budget" if npaths > max_paths else "wall budget"
+            return results, {"paths": npaths, "covered": sorted(covered), "solver_time_s": solver_time, "notes": notes,
+                             "incomplete": f"{why} exceeded after {npaths} paths in {unit_name}"}
         ctx = Ctx(prefix, world, unit_name, keep_smt=keep_smt)
         try:
             harness(ctx)
